@@ -91,5 +91,6 @@ func (r *CountGenerator) getRand(n uint32, max int) int {
 	if max == 0 {
 		return 0
 	}
-	return int(n%uint32(max) + 1)
+	// in 64 bits: uint32(max) is 0 when max is a multiple of 1<<32
+	return int(uint64(n)%uint64(max) + 1)
 }
